@@ -34,6 +34,9 @@ pub struct Base {
     pub note: String,
     /// the main value (None for raw-byte bases)
     pub tv: Option<TV>,
+    /// the bytes are a valid encoding *of the declared type*: no field was retyped by the
+    /// writer-schema variation (undeclared extra fields are fine, they are skipped by wire type)
+    pub conforming: bool,
 }
 
 pub fn prop_tag(prop: &str) -> u64 {
@@ -70,14 +73,14 @@ pub fn gen_base(w: &World, r: &mut Rng, mix: Mix, proto: Option<Proto>) -> Base 
         let tv = cx.of_struct(&w.schema, &ev, &def, 1);
         let e = encode_value(proto, &tv, long_form);
         let mut b = 60;
-        Base { proto, level: Level::Gen(g.name.to_string()), bytes: e.out, spans: e.spans, note: tv.brief(&mut b), tv: Some(tv) }
+        Base { proto, level: Level::Gen(g.name.to_string()), bytes: e.out, spans: e.spans, note: tv.brief(&mut b), tv: Some(tv), conforming: ev.retype_pct == 0 }
     } else if x < mix.gen + mix.prim {
         let mut cx = GenCtx::new(r, knobs);
         let t = cx.any_type();
         let tv = cx.any_of_type(t, 1);
         let e = encode_value(proto, &tv, long_form);
         let mut b = 60;
-        Base { proto, level: Level::Prim(t), bytes: e.out, spans: e.spans, note: tv.brief(&mut b), tv: Some(tv) }
+        Base { proto, level: Level::Prim(t), bytes: e.out, spans: e.spans, note: tv.brief(&mut b), tv: Some(tv), conforming: true }
     } else {
         let name_len = *r.pick(&[0usize, 1, 4, 15, 16, 200]);
         let name: Vec<u8> = (0..name_len).map(|_| b'a' + r.below(26) as u8).collect();
@@ -95,7 +98,7 @@ pub fn gen_base(w: &World, r: &mut Rng, mix: Mix, proto: Option<Proto>) -> Base 
         e.message_begin(&name, mtype, seq);
         e.value(&tv);
         let mut b = 40;
-        Base { proto, level: Level::Envelope, bytes: e.out, spans: e.spans, note: format!("msg[{}] t{} seq{} {}", name_len, mtype, seq, tv.brief(&mut b)), tv: Some(tv) }
+        Base { proto, level: Level::Envelope, bytes: e.out, spans: e.spans, note: format!("msg[{}] t{} seq{} {}", name_len, mtype, seq, tv.brief(&mut b)), tv: Some(tv), conforming: true }
     }
 }
 
@@ -269,7 +272,7 @@ pub fn unit_c07(w: &World, seed: u64, unit: u64, tier: Tier) -> Vec<Case> {
         let e = encode_value(proto, &tv, long_form);
         let mut bb = 60;
         let note = tv.brief(&mut bb);
-        let base = Base { proto, level: Level::Skip(t), bytes: e.out.clone(), spans: e.spans, note: note.clone(), tv: None };
+        let base = Base { proto, level: Level::Skip(t), bytes: e.out.clone(), spans: e.spans, note: note.clone(), tv: None, conforming: true };
         let len = base.bytes.len();
         let mut vb = base.bytes.clone();
         vb.extend_from_slice(&trailer);
@@ -302,7 +305,7 @@ pub fn unit_c07(w: &World, seed: u64, unit: u64, tier: Tier) -> Vec<Case> {
         let slen = se.out.len();
         let mut svb = se.out.clone();
         svb.extend_from_slice(&trailer);
-        let fbase = Base { proto, level: Level::SkipField, bytes: se.out.clone(), spans: vec![], note: format!("{{{}:{},{}:S}}", ida, note, idb), tv: None };
+        let fbase = Base { proto, level: Level::SkipField, bytes: se.out.clone(), spans: vec![], note: format!("{{{}:{},{}:S}}", ida, note, idb), tv: None, conforming: true };
         let mut scheds = vec![Schedule::whole(), Schedule::bytewise()];
         for _ in 0..nrand {
             scheds.push(Schedule::random(&mut r, svb.len(), ppct));
@@ -345,7 +348,7 @@ pub fn unit_c07(w: &World, seed: u64, unit: u64, tier: Tier) -> Vec<Case> {
             let len = e.out.len();
             let mut vb = e.out.clone();
             vb.extend_from_slice(&trailer);
-            let base = Base { proto, level: Level::Skip(tv.ttype()), bytes: e.out, spans: vec![], note: format!("nest{}", d), tv: None };
+            let base = Base { proto, level: Level::Skip(tv.ttype()), bytes: e.out, spans: vec![], note: format!("nest{}", d), tv: None, conforming: true };
             let refused = d >= 70;
             for (i, s) in [Schedule::whole(), Schedule::random(&mut r, vb.len(), ppct)].into_iter().enumerate() {
                 let mut c = mk_case(prop, &base, unit);
@@ -378,7 +381,7 @@ pub fn unit_c07(w: &World, seed: u64, unit: u64, tier: Tier) -> Vec<Case> {
         let d = *r.pick(&[200usize, 1000, 10_000, 100_000]);
         let bytes = chain_bytes(proto, d);
         let len = bytes.len();
-        let base = Base { proto, level: Level::Skip(T_STRUCT), bytes, spans: vec![], note: format!("chain{}", d), tv: None };
+        let base = Base { proto, level: Level::Skip(T_STRUCT), bytes, spans: vec![], note: format!("chain{}", d), tv: None, conforming: true };
         let mut vb = base.bytes.clone();
         vb.extend_from_slice(&trailer);
         let mut c = mk_case(prop, &base, unit);
@@ -419,7 +422,7 @@ const TYPE_CODES: [u8; 20] = [0, 1, 2, 3, 4, 5, 6, 7, 8, 9, 10, 11, 12, 13, 14, 
 pub fn enumerate_faults(r: &mut Rng, b: &Base, tier: Tier, want_all_truncations: bool) -> Vec<Faulted> {
     let mut v = vec![];
     let len = b.bytes.len();
-    let structish = matches!(b.level, Level::Gen(_)) || matches!(b.level, Level::Prim(T_STRUCT));
+    let structish = b.conforming && (matches!(b.level, Level::Gen(_)) || matches!(b.level, Level::Prim(T_STRUCT)));
     // truncation at every offset (strict prefixes)
     if want_all_truncations || len <= 64 {
         for k in 0..len {
@@ -569,7 +572,7 @@ pub fn unit_c09(w: &World, seed: u64, unit: u64, tier: Tier) -> Vec<Case> {
         }
         bytes.extend(std::iter::repeat(0u8).take(d));
         for lv in [Level::Gen("Tree".into()), Level::Gen("keep::Tree".into()), Level::Gen("Leaf".into()), Level::Skip(T_STRUCT)] {
-            let base = Base { proto, level: lv, bytes: bytes.clone(), spans: vec![], note: format!("bomb{}", d), tv: None };
+            let base = Base { proto, level: lv, bytes: bytes.clone(), spans: vec![], note: format!("bomb{}", d), tv: None, conforming: true };
             for stream in [false, true] {
                 let mut c = mk_case(prop, &base, unit);
                 c.bytes = bytes.clone();
@@ -590,7 +593,7 @@ pub fn unit_c09(w: &World, seed: u64, unit: u64, tier: Tier) -> Vec<Case> {
                 Proto::Compact => cb.push(0x19),
             }
         }
-        let base = Base { proto, level: Level::Skip(T_LIST), bytes: cb.clone(), spans: vec![], note: format!("listbomb{}", d), tv: None };
+        let base = Base { proto, level: Level::Skip(T_LIST), bytes: cb.clone(), spans: vec![], note: format!("listbomb{}", d), tv: None, conforming: true };
         for stream in [false, true] {
             let mut c = mk_case(prop, &base, unit);
             c.bytes = cb.clone();
